@@ -65,6 +65,7 @@ struct RunResult {
 	std::string log() const;
 	// counters
 	uint64_t allocs_u1 = 0, allocs_u2 = 0, reads = 0, cb_invocations = 0, api_calls = 0;
+	uint64_t files_recycled = 0; // streams that were opened on the FILE object of a closed one (address reuse)
 	uint64_t faults_fired_alloc = 0, faults_fired_cb = 0;
 	std::vector<int> start_conds; // start condition seen before each parse op (coverage)
 };
